@@ -134,7 +134,8 @@ def cases(draw, ctx):
             del live[i]
             joined.discard(i)
             if i == alt_stream:
-                stream_pool[i] = [i]
+                # (the executor keeps the pool list the stream had last: after a scheduler
+                # replacement a re-created stream gets the alternative pool again)
                 did_sec = True   # the alternative pool list is used up / gone with the stream
         elif c == "setmain_sec":
             main.append("setmain %d %d" % (alt_stream, draw(st.sampled_from([1, 3, 4]))))
